@@ -30,6 +30,7 @@ def shards(tier, seed):
         per = 1 if len(ds) > 8 else len(ds)         # big PGNs: one shard per definition (parallelism)
         for k in range(0, len(ds), per):
             out.append({"name": f"pgn-{p}-{k}", "pgn": p, "only": [d.id for d in ds[k:k + per]], "first": k == 0, "tier": tier, "seed": seed})
+    out.append({"name": "cold-start-in-threads", "threads": True, "tier": tier, "seed": seed})
     return out
 
 
@@ -42,7 +43,115 @@ def observe(dec, pgn, payload, nb):
         return ("exc", f"{type(e).__name__}: {e}")
 
 
+def cold_threads(spec, acc):
+    """The very first decodes of a process, issued by several threads at the same moment (each thread with a decoder of its own):
+    whatever the library sets up lazily on first use of a PGN is set up while another thread is already asking. Repeated in
+    several freshly forked processes (this shard has decoded nothing before it forks them). Selection must be the database's."""
+    import json
+    import os
+    import sys
+    import threading
+    dbx = refdb.db()
+    rng = gen.rng_for(spec["seed"], ID, spec["name"])
+    quick = spec["tier"] == "quick"
+    pgns = sorted(p for p, ds_ in dbx.by_pgn.items() if len(ds_) > 1)
+    plan = []          # per PGN: list of (payload, nb, expected id or None)
+    for p in pgns:
+        items = []
+        for d in dbx.by_pgn[p]:
+            if not (d.supported and d.fixed_layout):
+                continue
+            for _ in range(2):
+                pl = dbx.pack(d, gen.base_raws(d, rng, dbx))
+                want = dbx.select(p, pl)
+                if want is None or not want.supported:
+                    continue
+                nb = d.length if d.length is not None else (d.total_bits() + 7) // 8
+                items.append((pl, nb, want.id))
+        if items:
+            plan.append((p, items))
+    n_proc = 4 if quick else 24
+    n_threads = 4
+    total = 0
+    for child_no in range(n_proc):
+        rfd, wfd = os.pipe()
+        pid = os.fork()
+        if pid == 0:
+            out = {"wrong": [], "n": 0, "errors": []}
+            try:
+                os.close(rfd)
+                from ..lib import _RealDecoder
+                sys.setswitchinterval(1e-6)
+                decs = [_RealDecoder() for _ in range(n_threads)]
+                order = list(plan)
+                gen.rng_for(spec["seed"], ID, "cold", child_no).shuffle(order)
+                barrier = threading.Barrier(n_threads)
+                lock = threading.Lock()
+
+                def work(t):
+                    try:
+                        for p_, items in order:
+                            barrier.wait(30)
+                            for k_ in range(len(items)):
+                                pl, nb, want = items[(k_ + t) % len(items)]
+                                kind, got = observe(decs[t], p_, pl, nb)
+                                with lock:
+                                    out["n"] += 1
+                                    if kind == "exc":
+                                        continue
+                                    if got != want and len(out["wrong"]) < 20:
+                                        out["wrong"].append([p_, want, got, pl.to_bytes(nb, "little").hex(), t])
+                    except Exception as e:  # noqa: BLE001
+                        out["errors"].append(f"{type(e).__name__}: {e}")
+                ts = [threading.Thread(target=work, args=(t,)) for t in range(n_threads)]
+                for t_ in ts:
+                    t_.start()
+                for t_ in ts:
+                    t_.join(120)
+                # afterwards, single-threaded: whatever was set up during the race is what the process lives with
+                for p_, items in order:
+                    for pl, nb, want in items:
+                        kind, got = observe(decs[0], p_, pl, nb)
+                        out["n"] += 1
+                        if kind != "exc" and got != want and len(out["wrong"]) < 20:
+                            out["wrong"].append([p_, want, got, pl.to_bytes(nb, "little").hex(), "after"])
+            except BaseException as e:  # noqa: BLE001
+                out["errors"].append(f"{type(e).__name__}: {e}")
+            try:
+                os.write(wfd, json.dumps(out).encode())
+            finally:
+                os._exit(0)
+        os.close(wfd)
+        chunks = []
+        while True:
+            b = os.read(rfd, 65536)
+            if not b:
+                break
+            chunks.append(b)
+        os.close(rfd)
+        os.waitpid(pid, 0)
+        try:
+            res = json.loads(b"".join(chunks).decode())
+        except Exception:  # noqa: BLE001
+            acc.inconclusive_because("cold-start worker returned nothing")
+            continue
+        total += res["n"]
+        acc.count("cold_start_processes")
+        acc.count("dispatch_outcomes_compared", res["n"])
+        if res["errors"]:
+            acc.violation("decode-raised-in-concurrent-threads", f"first decodes of a process from {n_threads} threads: {res['errors'][0]}", {"errors": res["errors"][:5]})
+        for p_, want, got, hexp, t in res["wrong"][:3]:
+            acc.violation("wrong-definition-selected" if got else "no-message-for-matching-definition",
+                          f"PGN {p_}: prescribed {want} but {got!r} returned when the first decodes of the process come from {n_threads} threads at once"
+                          + (" (and still so afterwards, single-threaded)" if t == "after" else ""),
+                          {"pgn": p_, "payload_hex": hexp, "prescribed": want, "observed": got, "thread": t, "cold_start": True})
+    acc.case(("cold-threads", n_proc, total))
+    acc.sample({"processes": n_proc, "threads_each": n_threads, "pgns": len(plan), "outcomes": total})
+
+
 def run_shard(spec, acc):
+    if spec.get("threads"):
+        return cold_threads(spec, acc)
     dbx = refdb.db()
     pgn = spec["pgn"]
     ds = dbx.by_pgn[pgn]
